@@ -307,6 +307,21 @@ func seedIfacePointers(t *tape.Tape, v reflect.Value, depth int) int {
 		for i := 0; i < v.Len(); i++ {
 			n += seedIfacePointers(t, v.Index(i), depth+1)
 		}
+	case reflect.Map:
+		// a caller may have stored pointers under keys of a map of interfaces
+		if v.Type().Elem().Kind() == reflect.Interface && v.Type().Elem().NumMethod() == 0 && !v.IsNil() {
+			keys := v.MapKeys()
+			sort.Slice(keys, func(i, j int) bool { return fmt.Sprint(keys[i]) < fmt.Sprint(keys[j]) })
+			for _, k := range keys {
+				if t.Chance(1, 3) {
+					pt := ifacePtrTypes[t.Intn(len(ifacePtrTypes))]
+					p := reflect.New(pt)
+					(&gen.Values{T: t, C: gen.JSON, MaxMap: 2, MaxLen: 3}).Fill(p.Elem())
+					v.SetMapIndex(k, p)
+					n++
+				}
+			}
+		}
 	}
 	return n
 }
@@ -563,13 +578,28 @@ func c02ErrClass(a, b error) string {
 		e = b
 	}
 	s := e.Error()
+	// keep the shape of the message, drop everything that comes from the
+	// document or the generated type
+	if i := strings.Index(s, "cannot unmarshal "); i >= 0 {
+		rest := s[i+len("cannot unmarshal "):]
+		kind := "value"
+		if j := strings.LastIndex(rest, " of type "); j >= 0 {
+			kind = rest[j+len(" of type "):]
+			if k := strings.IndexAny(kind, " {"); k > 0 {
+				kind = kind[:k]
+			}
+		}
+		return "cannot-unmarshal-into:" + kind
+	}
+	if i := strings.Index(s, ":"); i > 0 && strings.HasPrefix(s, "json: invalid character") {
+		s = s[:i]
+	}
 	s = numReProps.ReplaceAllString(s, "N")
-	// drop quoted fragments and Go type names that vary with the generated type
 	if i := strings.Index(s, "struct {"); i >= 0 {
 		s = s[:i] + "struct{…}"
 	}
-	if len(s) > 70 {
-		s = s[:70]
+	if len(s) > 60 {
+		s = s[:60]
 	}
 	return s
 }
